@@ -2,7 +2,7 @@
 Scenario:    <all_sep 0|1> <ntests> test*
   test ::= :plain <fail 0|1>                       ordinary test (own process only when all_sep = 1)
          | :scr <fork_ok 0|1> <n> wout*n           fork/waitpid replaced by stubs replaying the outcomes (then a clean exit)
-               wout ::= :ei (EINTR) | :er (other error) | :x <k> exited | :k <sig> <core> killed | :s <sig> stopped | :c continued
+               wout ::= :ei (EINTR) | :er <errno> (other error) | :x <k> exited | :k <sig> <core> killed | :s <sig> stopped | :c continued
          | :real <n> act*n  x5  <n> inj*n          a real child; actions in plugin pre action, setup, body, teardown, plugin post action
                act ::= :r <sig> raise | :e <k> _exit | :f failing check        inj ::= :ei | :er | :re (faults in front of the real waitpid)
 Observation: per test ":t <started> <nf> cat*nf <waitpid calls> <SIGCONT seen> <lost>", then ":end <failures> <isFailure> <run> <late>".
@@ -68,7 +68,9 @@ def rnd_out(rng, kind):
         return ":k %x %x" % (rng.choice([1, 6, 9, 11, 15, 16, 31, 32, 63, 64, 126, 125, rng.randrange(1, 127)]), rng.randrange(2))
     if kind == "s":
         return ":s %x" % rng.choice([19, 20, 0, 255, 127, 1, rng.randrange(256)])
-    return {"ei": ":ei", "er": ":er", "c": ":c"}[kind]
+    if kind == "er":
+        return ":er %x" % rng.choice([10, 10, 5, 11, 22, 3, 1, 0, 512, rng.choice([2, 6, 7, 8, 9, 12, 13, 14, 35])])   # never EINTR (4)
+    return ":ei"
 
 
 ALPHA = ["ei", "er", "x0", "x", "k", "s"]
@@ -234,7 +236,7 @@ def parse(s):
             i += 3
             outs = []
             for _ in range(m):
-                w = {":ei": 1, ":er": 1, ":c": 1, ":x": 2, ":s": 2, ":k": 3}[t[i]]
+                w = {":ei": 1, ":er": 2, ":c": 1, ":x": 2, ":s": 2, ":k": 3}[t[i]]
                 outs.append(" ".join(t[i:i + w]))
                 i += w
             tests.append(["scr", ok, outs])
@@ -463,4 +465,4 @@ LEVEL_NOTE = ("Partial: kernel delivery of signals, zombie reaping and SIGCONT a
               "texts are re-read from UtestPlatform.cpp on every run. After an EINTR overrun or a waitpid error the runner abandons the child by "
               "design; this is recorded, not judged.")
 TECHNIQUE = "Coq proof over hand-written executable model + extracted-model/implementation correspondence check (scripted seams + real fork/wait)"
-READY = False
+READY = True
